@@ -14,7 +14,8 @@
 //!   mx-ans   MX RRset of m records: the answer itself crosses the limit
 //!   srv      SRV + additional addresses                    (512)
 //!   referral delegation with in-bailiwick glue (mandatory), sibling glue,
-//!            in-zone and out-of-zone server names (optional)
+//!            in-zone and out-of-zone server names (optional); also with a
+//!            server named like the delegated zone itself (glue at the cut)
 //!   negative NXDOMAIN with a ~360-octet SOA, QNAME 134..196 octets (512)
 //!   oversize RRsets that cannot fit in 65 535 octets
 //!   size-sweep  (families::size_sweep, shared with C01) answer-less
@@ -219,6 +220,20 @@ pub fn build(w: usize) -> Built {
                 for k in 1..=63 {
                     q.push(Query { scenario: "referral", qname: xk(k, &format!("{sub}.z.")), qtype: t::A, upper_bound: 3 * centre + 2000 });
                 }
+                // the same with a name server named like the delegated zone
+                // itself (its glue sits at the cut node) next to one below it
+                let sub = format!("ds{centre}g{g:03}");
+                let cut = wname(&format!("{sub}.z."));
+                let ns2 = wname(&format!("ns2.{sub}.z."));
+                z.push(rec(&cut, t::NS, cut.clone()));
+                z.push(rec(&cut, t::NS, ns2.clone()));
+                for i in 0..g {
+                    z.push(rec(&cut, t::A, vec![10, 8, (i >> 8) as u8, i as u8]));
+                }
+                z.push(rec(&ns2, t::A, vec![10, 8, 255, 1]));
+                for k in (1..=63).step_by(2) {
+                    q.push(Query { scenario: "referral-self-named", qname: xk(k, &format!("{sub}.z.")), qtype: t::A, upper_bound: 3 * centre + 2000 });
+                }
             }
         }
     }
@@ -384,7 +399,7 @@ fn tsig_len(key: u8) -> usize {
     }
 }
 
-fn world_for(w: usize) -> (World, Vec<Query>) {
+pub fn world_for(w: usize) -> (World, Vec<Query>) {
     let b = build(w);
     let cat = zones::catalog_from(b.zones);
     (World::only(vec![("c04".to_string(), cat)]), b.queries)
